@@ -735,7 +735,11 @@ class Daemon(object):
             loc = self.natLocationStr or self.locationStr
         else:
             loc = self.locationStr
-        return core.URI("PYRO:%s@%s" % (objectOrId, loc))
+        uri = core.URI("PYRO:%s@%s" % (objectOrId, loc))
+        if uri.object != objectOrId:
+            # e.g. an id containing '@': the uri would address another object id (and location)
+            raise errors.DaemonError("invalid object id: it cannot be expressed in an uri")
+        return uri
 
     def resetMetadataCache(self, objectOrId, nat=True):
         """Reset cache of metadata when a Daemon has available methods/attributes
